@@ -41,6 +41,14 @@ func F() int { Calls++; return 61 }
 func (t T) Meth() int { return t.A }
 
 var Default = "lib-default"
+
+type jimpl struct{}
+
+func (jimpl) Other() int { return 1 }
+
+var JV J = jimpl{}
+
+var EV interface{} = 5
 `
 
 var c13EnvApp = strings.NewReplacer("11", "111", `"vb"`, `"avb"`, "X = 7", "X = 70", "lib-default", "app-default", "{A: 21}", "{A: 210}", "A: 31", "A: 310", "{4, 5, 6}", "{40, 50, 60}", "{7, 8, 9, 10}", "{70, 80, 90, 100}", `"a": 1`, `"a": 10`).Replace(c13EnvLib)
@@ -184,6 +192,10 @@ func (g *c13gen) expr(ty string, depth int) string {
 		return g.pick([]string{"Ch", "(chan int)(nil)"}, "chan")
 	case "pair":
 		return "Pair{East: " + g.expr("string", depth+1) + ", West: " + g.expr("string", depth+1) + "}"
+	case "J":
+		return "JV"
+	case "empty":
+		return "EV"
 	}
 	return "0"
 }
@@ -223,6 +235,10 @@ func c13Type(s *Spec, ty string, home int) *Type {
 		return Chan(0, Basic("int"))
 	case "pair":
 		return Named(find("Pair"))
+	case "J":
+		return Named(find("J"))
+	case "empty":
+		return &Type{K: "ifacelit"}
 	}
 	return Basic("int")
 }
@@ -239,6 +255,7 @@ func genC13() *rapid.Generator[*Spec] {
 				Decl{Pkg: home, Name: "N", Form: "def", Under: Basic("int")},
 				Decl{Pkg: home, Name: "I", Form: "iface", IMeth: []string{"M"}},
 				Decl{Pkg: home, Name: "Pair", Form: "struct", Fields: []SField{{Name: "East", T: Basic("string")}, {Name: "West", T: Basic("string")}}},
+				Decl{Pkg: home, Name: "J", Form: "iface", IMeth: []string{"Other"}},
 			)
 		}
 		s.PkgExtra[0], s.PkgExtra[1] = c13EnvApp, c13EnvLib
@@ -273,7 +290,7 @@ func genC13() *rapid.Generator[*Spec] {
 					form, ty = "value-iface", "T"
 				case "notimpl":
 					form = "ivalue"
-					ty = rapid.SampledFrom([]string{"int", "string", "slice", "N"}).Draw(t, "notimpltype")
+					ty = rapid.SampledFrom([]string{"int", "string", "slice", "N", "J", "empty"}).Draw(t, "notimpltype")
 				}
 			}
 			if form == "ivalue" && !(k == specialAt && specialKind == "notimpl") {
